@@ -136,6 +136,7 @@ func loadWorld(repo, verif string) (*World, error) {
 			w.contracts.Order = append(w.contracts.Order, k)
 		}
 		w.contracts.Lemmas = append(w.contracts.Lemmas, cf.Lemmas...)
+		w.contracts.Folds = append(w.contracts.Folds, cf.Folds...)
 	}
 	for _, mode := range []string{"int", "bv"} {
 		data, err := os.ReadFile(filepath.Join(verif, "prelude", mode+".smt2"))
@@ -143,6 +144,14 @@ func loadWorld(repo, verif string) (*World, error) {
 			return nil, err
 		}
 		w.prelude[mode] = string(data)
+		if mode == "int" {
+			for _, f := range w.contracts.Folds {
+				if f.Init == nil || f.Step == nil {
+					return nil, fmt.Errorf("fold %s needs init and step", f.Name)
+				}
+				w.prelude[mode] += fmt.Sprintf("(declare-fun fold_%s ((Array Int Int) Int Int) Int)\n", f.Name)
+			}
+		}
 		w.sigs[mode] = parsePreludeSigs(string(data))
 	}
 	return w, nil
